@@ -27,6 +27,7 @@ EXPLANATION = (
   " (TAINT) the escaping function also replaces '>' (an unescaped --> would be read as a timing line);"
   ' (RAISE-interval) the cue serialisers refuse end <= begin, so add_isd passes an interval on only after a test on the rounded end and begin has excluded an interval that is empty at millisecond resolution (an interval shorter than the time-code resolution is skipped, never an exception);'
   " (PAIR-default-end) where the merging filters are not applied unconditionally the writer's finish() gives the default end to every cue that has none, not to the last list entry only;"
+  ' (LINT-k) no instance field declared with a numeric type is tested by truthiness (the number 0 would count as `not set`);'
 )
 RULE_TEXT = "per tag pair, per tag append, per supported value, per text flow"
 UNDECIDED = ["cue-setting values (line, align) vs the computed position and alignment", "no empty line / no '-->' inside an SRT payload (SRT has no escaping mechanism)",
@@ -460,4 +461,5 @@ def run(ctx):
     shape.check_interval_resolution(ctx, ctx.ix.func(prod), ctx.ix.func(ref))
   for q_ in ("ttconv.srt.writer:SrtContext", "ttconv.vtt.writer:VttContext"):
     shape.check_default_end(ctx, ctx.ix.cls(q_))
+  common.check_numeric_fields(ctx, common.WRITERS)
   common.check_history_independence(ctx, common.WRITERS + common.ISD_FILTERS)
